@@ -128,6 +128,16 @@ def run_selftest(prop: str, tier: str, seed: int, repo: Repo) -> dict:
             results = pool.map(_run_one, jobs)
     else:
         results = [_run_one(j) for j in jobs]
+    # thorough: a seeded sample of automatically generated behaviour-preserving variants
+    # (formatting-only re-emission of each anchored module + alpha-renaming of single locals)
+    auto = []
+    if tier == "thorough":
+        from . import renamefuzz
+
+        n_auto = int(os.environ.get("ACSA_AUTO_VARIANTS", "24"))
+        for r in renamefuzz.run([prop], max_per_prop=n_auto, seed=seed):
+            auto.append((f"auto: {r[1]}", "silent" if r[2] == "silent" else "noisy", f"{r[2]}: {r[3]}" if r[2] != "silent" else ""))
+        results = list(results) + auto
     names_m = {m.name for m in mutants}
     out = {
         "variants_analysed": sum(1 for r in results if r[1] not in ("skipped", "corpus-error")),
